@@ -490,6 +490,8 @@ func runC01(c *core.Ctx) {
 	c.Rule("R7", "only fresh pool copies enter the write queue (payload whole and unmodified until written)", 2)
 	importObligations(c, runC10, "R7", func(o *core.Obligation) bool { return o.Rule == "R1" || o.Rule == "R3" || o.Rule == "R6" })
 	// ---- R9 (shared with C17-R1/R5): below the channel the bytes keep their order: each wrapper has one write sink
+	c.Rule("R10", "the sender's only failure check raises for every non-nil error (shared with C07-R4)", 2)
+	importObligations(c, runC07, "R10", func(o *core.Obligation) bool { return strings.Contains(o.Key, "/raises-on-every-error") })
 	c.Rule("R9", "transport wrappers write through one sink (no bypass of pending buffered bytes); the tcp transport overrides none of them (shared with C17-R1/R5)", 2)
 	importObligations(c, runC17, "R9", func(o *core.Obligation) bool { return o.Rule == "R1" || o.Rule == "R5" })
 	// ---- R8 (shared with C02-R5/R8): every access to the sender flag fits the ownership protocol; one release per ownership
